@@ -319,11 +319,30 @@ def clean_cases(d):
             else:
                 st = ["bin", op, ["f", f["name"]], ["lit", k]]
             stmts.insert(d.randint(0, len(stmts)), ["expr", st])
+    if nr and d.chance(45):
+        # an in-list whose bounds are non-random fields: the inferred range has to follow their CURRENT values
+        f = d.choice(fs)
+        hi = (1 << f["w"]) - 1
+        g = d.choice(nr)
+        k = d.randint(0, 2)
+        if k == 0:
+            items = [["rng", ["lit", 0], ["f", g["name"]]]]
+        elif k == 1:
+            items = [["rng", ["f", g["name"]], ["lit", hi]]]
+        else:
+            items = [["f", g["name"]], ["lit", d.randint(0, hi)]]
+        stmts.insert(d.randint(0, len(stmts)), ["expr", ["in", ["f", f["name"]], items]])
     if not stmts:
         stmts.append(["expr", ["bin", "<=", ["f", fs[0]["name"]], ["lit", 2]]])
     prog = {"enums": {}, "classes": [{"name": "T", "fields": fs + nr, "blocks": [{"name": "c0", "stmts": stmts}]}]}
+    calls = [{"kind": d.choice(["randomize", "randomize_with", "vsc.randomize"]), "seed": d.seed()} for _ in range(d.randint(1, 3))]
+    if nr:
+        for c_ in calls[1:]:
+            if d.chance(60):
+                # the non-random fields are assigned new values between the calls
+                c_["set"] = {g["name"]: d.randint(0, 7) for g in nr if d.chance(70)}
     return {"mode": "enum", "prog": prog, "inline": None, "clean": True,
-            "calls": [{"kind": d.choice(["randomize", "randomize_with", "vsc.randomize"]), "seed": d.seed()} for _ in range(d.randint(1, 3))],
+            "calls": calls,
             "sel": [d.randint(0, 1 << 16) for _ in range(8)], "pseed": d.seed()}
 
 
@@ -371,6 +390,11 @@ def run_case(case):
     last = None
     for call in case["calls"]:
         kind = call["kind"]
+        for sn, sv in (call.get("set") or {}).items():
+            if sn in types and not types[sn]["rand"] and isinstance(sv, int) and sem.in_type(sv, types[sn]):
+                setattr(obj, sn, sv)
+                env0[sn] = sv
+                info["sets"] = info.get("sets", 0) + 1
         use_inline = kind.endswith("_with") and bool(inline)
         stmts = class_stmts + (inline if use_inline else [])
         r = flat.enumerate_solutions(types, rf, env0, stmts)
